@@ -44,7 +44,8 @@ func VHC08Binding() {
 	case 3:
 		ret = "for (q in [1, 2]) { if (q == 2) { x = match (q) { z => { return 'deep' } } } }"
 	}
-	prog := "function f(" + plist + ") {\n" + body + "local = 'L'\nglob = 'G'\n" + ret + "\nprint 'fell off'\n}\n" +
+	// a nested call that completed with a return value must not leak into f's own result
+	prog := "function h() { return 'H' }\nfunction f(" + plist + ") {\n" + body + "local = 'L'\nglob = 'G'\ntmp = h()\n" + ret + "\nprint 'fell off', tmp\n}\n" +
 		"{ glob = 'g0'\nx0 = $.a0\nr = f(" + args + ")\nprint 'r', r\nprint 'glob', glob\nprint local is unknown, p0 is unknown, p1 is unknown, p2 is unknown, z is unknown, q is unknown\nprint 'x0', x0, $.a0 }"
 	out, k := runProg(prog, doc)
 	want := ""
@@ -57,7 +58,7 @@ func VHC08Binding() {
 	}
 	switch retKind {
 	case 0:
-		want += "fell off\nr null\n"
+		want += "fell off H\nr null\n"
 	case 1:
 		want += "r r\n"
 	case 2:
@@ -85,6 +86,9 @@ var c08Recursion = [][2]string{
 	{"function k() { return }\nBEGIN { print k() is null, k(1, 2, 3) is null }", "true true\n"},
 	{"function e() { exit }\nBEGIN { print 'a'; e(); print 'b' }\nEND { print 'end' }", "a\n"},
 	{"function n() { next }\n{ print 'a'; n(); print 'b' }\n{ print 'c' }", "a\n"},
+	{"function double(x) { return x * 2 }\nfunction record(x) { total = total + double(x) }\nBEGIN { total = 0; r = record(3); print r is null, total }", "true 6\n"},
+	{"function a() { return 1 }\nfunction b() { a()\nreturn }\nfunction c() { b() }\nBEGIN { print b() is null, c() is null }", "true true\n"},
+	{"function g() { return 5 }\nfunction w() { x = match (1) { z => g() } }\nBEGIN { print w() is null }", "true\n"},
 }
 
 // VHC08Recursion: recursion, mutual recursion, recursion through match bodies,
